@@ -267,8 +267,9 @@ def run(ctx: Ctx) -> Outcome:
 
     # code -> spec: TLC judges all disagreeing observations (capped) plus a random sample of the agreeing ones
     dis_idx = sorted({n for n, _, _ in dis})
-    agree_idx = [n for n in range(len(cases)) if n not in set(dis_idx)]
-    judged_idx = dis_idx[:4000] + common.sample(rng, agree_idx, 5000 if ctx.quick else 20000)
+    dis_set = set(dis_idx)
+    agree_idx = [n for n in range(len(cases)) if n not in dis_set]
+    judged_idx = dis_idx[:30000] + common.sample(rng, agree_idx, 5000 if ctx.quick else 20000)
     used_defs = sorted({cases[n][0] for n in judged_idx})
     remap = {di: j + 1 for j, di in enumerate(used_defs)}
     obs_file = ctx.path("obs.json")
